@@ -513,6 +513,58 @@ Section WithV.
 
   (* ---------------------------------------------------------------- the theorem, for arbitrary flags *)
 
+  (* the value the COO joiner returns: the constructor applied to the offset entry lists *)
+  Lemma coo_concat_value (vzero : V) (vadd : V -> V -> V)
+          (fl : ctor_flags) (ndim_expr : pyv -> res pyv) (checks_fill : bool)
+          (a : coo) (r : list coo) (axis : Z) (k : nat) :
+    ndim_expr (VInt (ndim_of V a)) = Ok (VInt (ndim_of V a)) ->
+    np_norm_axis axis (ndim_of V a) = Some k ->
+    fl_has_duplicates fl (Z.of_nat k) = false -> fl_prune fl (Z.of_nat k) = false ->
+    fl_fill fl <> FillAbsent ->
+    Forall cwf (a :: r) ->
+    Forall (fun x => same_off k (c_shape a) (c_shape x)) r ->
+    Forall (fun x => c_fill x = c_fill a) r ->
+    coo_concatenate V veqb vzero vadd fl ndim_expr checks_fill axis (a :: r)
+    = Ok (plain_ctor (fl_sorted fl (Z.of_nat k)) (c_fill a)
+            (upd k (fun _ => zsum (map (fun x => nth k (c_shape x) 0) (a :: r))) (c_shape a))
+            (cparts_e k 0 (a :: r))).
+  Proof.
+    intros Hnd Hax Hdup Hprune Hfill Hwf Hso Hfl.
+    destruct (norm_axis_spec ndim_expr axis _ _ k Hnd Hax) as [Hnorm Hklt].
+    assert (Hk : (k < length (c_shape a))%nat) by (unfold ndim_of in Hklt; lia).
+    assert (Hso' : Forall (fun x => same_off k (c_shape a) (c_shape x)) (a :: r)).
+    { constructor; [split; reflexivity|exact Hso]. }
+    assert (Hok : Forall (member_ok k) (a :: r)).
+    { apply Forall_forall. intros x Hx. rewrite Forall_forall in Hwf, Hso'.
+      apply cwf_member_ok; [auto|]. destruct (Hso' _ Hx) as [Hl _]. lia. }
+    assert (Hfl' : Forall (fun x => c_fill x = c_fill a) (a :: r)) by (constructor; auto).
+    unfold coo_concatenate.
+    assert (E1 : checks_fill && negb (fills_consistent V veqb a (a :: r)) = false).
+    { apply andb_false_intro2. apply negb_false_iff. unfold fills_consistent. apply forallb_forall.
+      intros x Hx. rewrite Forall_forall in Hfl'. apply veqb_eq. symmetry. auto. }
+    rewrite E1, Hnorm. cbn [bind]. rewrite Nat2Z.id.
+    assert (E2 : forallb (fun x => same_off_axis k (c_shape a) (c_shape x)) (a :: r) = true).
+    { apply forallb_forall. intros x Hx. rewrite Forall_forall in Hso'. destruct (Hso' _ Hx) as [Hl Hd].
+      unfold same_off_axis. rewrite Hl, Nat.eqb_refl, Hd, idx_eqb_refl. reflexivity. }
+    rewrite E2. cbn [negb].
+    assert (Hlens : Forall (fun x => length (c_data x) = length (c_coords x)) (a :: r)).
+    { eapply Forall_impl; [|exact Hok]. intros x Hx. apply Hx. }
+    destruct (concat_parts_entries k (a :: r) 0 Hlens) as [Hcomb Hlen].
+    destruct (concat_parts V k 0 (a :: r)) as [cs ds] eqn:Ecp. cbn [fst snd] in Hcomb, Hlen.
+    set (T := zsum (map (fun x => nth k (c_shape x) 0) (a :: r))).
+    set (sh := upd k (fun _ => T) (c_shape a)).
+    assert (Hkeys : map fst (combine cs ds) = cs) by (apply map_fst_combine; exact Hlen).
+    assert (Hrange : Forall (in_range sh) (map fst (cparts_e k 0 (a :: r)))).
+    { apply Forall_forall. intros key Hkey.
+      apply (cparts_keys_in_range k (c_shape a) (a :: r) 0 T); auto; unfold T; lia. }
+    rewrite Hdup, Hprune.
+    rewrite coo_ctor_plain by (rewrite <- Hkeys, Hcomb; exact Hrange).
+    rewrite Hcomb.
+    assert (Hfo : fill_of V vzero (fl_fill fl) (c_fill a) = c_fill a)
+      by (destruct (fl_fill fl); [congruence|reflexivity|reflexivity]).
+    rewrite Hfo. reflexivity.
+  Qed.
+
   Theorem coo_concat_correct (vzero : V) (vadd : V -> V -> V)
           (fl : ctor_flags) (ndim_expr : pyv -> res pyv) (checks_fill : bool)
           (a : coo) (r : list coo) (axis : Z) (k : nat) :
